@@ -59,6 +59,42 @@ func transcript(x *mon.Ctx) {
 			}
 		}
 	}
+	histories(x)
+}
+
+// histories appends the reuse histories and the structured-value cases to the
+// transcript (their outputs are digested and compared across configurations too).
+func histories(x *mon.Ctx) {
+	nk := x.Scale(36, 720) // 6 histories x Destroy yes/no x confirmation (2 of 3 with)
+	for j := 0; j < nk; j++ {
+		la, lb, hid := (j*29+3)%201, (j*53+60)%201, hids[j%4]
+		if c := x.Begin("kexreuse #%d history=%s uidlenA=%d uidlenB=%d hid=%#x", j, kexHistories[j%len(kexHistories)], la, lb, hid); c != nil {
+			kexReuseCase(c, j, la, lb, hid)
+			c.End()
+		}
+	}
+	no := x.Scale(12, 240)
+	for j := 0; j < no; j++ {
+		if c := x.Begin("objreuse #%d: one master public key, one set of option objects, one DecrypterOptsWithUID per user, changing uid/hid/mode/length", j); c != nil {
+			objReuseCase(c, j, hids[j%4])
+			c.End()
+		}
+	}
+	sets := x.Scale(1, 8)
+	for set := 0; set < sets; set++ {
+		for _, sh := range sigShapes {
+			if c := x.Begin("shape set=%d signature with %s (reference search over messages, then every sign/verify entry point)", set, sh); c != nil {
+				sigShapeCase(c, set, sh)
+				c.End()
+			}
+		}
+		for coord := 0; coord < 2; coord++ {
+			if c := x.Begin("shape set=%d C1 with a leading zero byte in coordinate %d (wrap and encrypt, raw and ASN.1)", set, coord); c != nil {
+				c1ShapeCase(c, set, coord)
+				c.End()
+			}
+		}
+	}
 }
 
 func inRange(c *mon.Case, what string, ks []byte) *big.Int {
